@@ -46,9 +46,9 @@ def stats(raw):
 
 
 e2check.run(dict(
-    prop='C02', model='sched', harness='e2/sched.cpp', bin='e2_sched', props=['C02'], translators=['stateword.py'],
+    prop='C02', model='sched', harness='e2/sched.cpp', bin='e2_sched', props=['C02', 'C02x'], translators=['stateword.py'],
     runs=runs, extra_runs=extra_runs, nontrivial=nontrivial, stats=stats, par=3, timeout_s=900,
     rule='hand-shake programs: a task blocks on a counting_semaphore (condition_variable + suspend) that a child task or an external OS thread releases, possibly before the waiter has finished switching off its worker; boosted spin-waits; "zoo" programs (latch, mutex + condition variable, join, an interrupt that ends a condition-variable wait after which the interrupted task blocks again and is released); all scheduling policies, 2-16 workers, PRNG timing perturbation at the instrumented sites (state-word loads/exchanges, queue insertions); non-trivial = at least one suspended->pending wake-up in the log; distinct = distinct argv',
-    assumptions=['helper-abort soundness (tag argument) is argued in DESIGN.md, not proved',
+    assumptions=['the end-to-end theorem C02_no_lost_wakeup assumes that a helper task which logged sas.retry re-enters set_thread_state (straight-line code after the hook; hypothesis `owing [] post = []`)',
                  'timed suspension does not exist in this tree (this_thread::sleep_for throws), so no timer wakes are exercised'],
 ))
